@@ -39,3 +39,27 @@ func (h *VerifHandshakeEnv) Bindings() (client, channel []int, ok bool) {
 	b, inv := vReadBindings(h.e)
 	return b.client, b.channel, inv
 }
+
+// VerifNewBareHandshakeEnv is the C17 environment without any binding installed.
+func VerifNewBareHandshakeEnv() *VerifHandshakeEnv {
+	e, _, _, chk := vC17Env()
+	e.k.accountKeeper = vAccountKeeper2{}
+	n := len(vC17Consumers)
+	h := &VerifHandshakeEnv{Ctx: e.ctx, K: &e.k, e: e, chk: chk, Client: make([]int, n), Chan: make([]int, n)}
+	for i := range h.Client {
+		h.Client[i], h.Chan[i] = -1, -1
+	}
+	return h
+}
+
+// Bind gives consumer i the client with index cl and, if ch >= 0, the CCV channel with index ch.
+func (h *VerifHandshakeEnv) Bind(i, cl, ch int) {
+	c := vC17Consumers[i]
+	h.K.SetConsumerClientId(h.Ctx, c, vC17Clients[cl])
+	h.Client[i] = cl
+	if ch >= 0 {
+		h.K.SetConsumerIdToChannelId(h.Ctx, c, vC17Channels[ch])
+		h.K.SetChannelToConsumerId(h.Ctx, vC17Channels[ch], c)
+		h.Chan[i] = ch
+	}
+}
